@@ -516,13 +516,19 @@ class Interp(ExprMixin, CallMixin):
             if itv.k in ('tuple', 'list'):
                 nonempty = len(itv.a[0]) > 0 if (itv.k == 'tuple' or itv.a[0]) else nonempty
             # zero iterations
+            stable = itv.k in ('param', 'rows', 'term', 'mcall', 'comp', 'ret', 'ucall', 'field', 'elem') and \
+                nonempty is None
             if nonempty is not True and self.opts.for_zero:
                 s0 = s.fork()
+                if stable:
+                    self.assume(itv, False, s0)     # a later loop over the same value is empty too
                 self.emit(s0, 'FOR', n, it=0, iter=itv)
                 out.extend(self.exec_block(n.orelse, s0) if n.orelse else [(('next',), s0)])
             if nonempty is False:
                 continue
             # one iteration
+            if stable:
+                self.assume(itv, True, s)
             self.emit(s, 'FOR', n, it=1, iter=itv)
             for s1 in self.bind_loop_target(n.target, itv, s, n.iter):
                 if isinstance(s1, tuple):
